@@ -131,6 +131,7 @@ fn try_uri_from_str(value: &str) -> Result<URIReference<'static>, URIReferenceEr
 pub struct Platform {
     /// The operating system type that the packaged buildpack will run on.
     /// Only linux or windows is supported. If omitted, linux will be the default.
+    #[serde(default)]
     pub os: PlatformOs,
 }
 
@@ -140,9 +141,10 @@ impl Default for Platform {
     }
 }
 
-#[derive(Debug, Deserialize, Serialize, Eq, PartialEq, Clone)]
+#[derive(Debug, Default, Deserialize, Serialize, Eq, PartialEq, Clone)]
 #[serde(rename_all = "lowercase")]
 pub enum PlatformOs {
+    #[default]
     Linux,
     Windows,
 }
